@@ -51,6 +51,12 @@ Theorem C18_request_id_formula : forall x, 0 <= x <= 4294967295 ->
   go_nextRequestID x = x mod 4294967295 + 1 /\ 1 <= go_nextRequestID x <= 4294967295.
 Proof. intros x H. split; [apply next_id_closed | apply next_id_range]; exact H. Qed.
 
+(* the request id counter only ever advances by the translated step: no step of the channel hands an id back, so an id
+   that has been given to a call is not given to another one before the counter has gone round *)
+Theorem C18_id_counter_only_advances : forall s e s', step VNow s e = Some s' ->
+  next_req s' = next_req s \/ next_req s' = go_nextRequestID (next_req s).
+Proof. intros; eapply step_next_req; eassumption. Qed.
+
 (* PROVISO (id wrap): while at most 2^32 - 1 request ids have been handed out on the channel, no two calls have the
    same id ... *)
 Theorem C18_ids_distinct_until_wrap : forall seed s t1 t2 i,
@@ -101,6 +107,7 @@ Print Assumptions C18_consumed_not_pending.
 Print Assumptions C18_never_overflows.
 Print Assumptions C18_wrong_type_is_error.
 Print Assumptions C18_request_id_formula.
+Print Assumptions C18_id_counter_only_advances.
 Print Assumptions C18_ids_distinct_until_wrap.
 Print Assumptions C18_own_answer.
 Print Assumptions C18_tie_source_shape.
